@@ -22,7 +22,11 @@ ASCII = [chr(c) for c in range(0x20, 0x7f)] + ['\t']
 UNICODE = ['é', ' ', '中', '\U0001f600', 'é', 'א',
            '​', '‮', 'ß', 'Ж']
 LOADED = list(' \t\'"$#%&()*?[]:,@!+~{};=|<>\\`^-')
-CURATED = ['', ' ', '  ', 'a b', "it's", '"q"', '$(HOME)', '${HOME}', '$$', '$HOME',
+# long values with runs of blanks at every column: a writer that wraps long lines (Ninja's
+# '$'-newline continuation skips the leading blanks of the next line) must not eat any of them
+LONG_BLANKS = ['w' + ' ' * 120 + 'w', 'ab  ' * 40 + 'z', 'a   b ' * 30 + 'z', ' ' * 90,
+               'x' * 75 + '  ' + 'y' * 75 + '   ' + 'z']
+CURATED = LONG_BLANKS + ['', ' ', '  ', 'a b', "it's", '"q"', '$(HOME)', '${HOME}', '$$', '$HOME',
            '`echo x`', '$(shell echo x)', 'a;b', 'a && b', '>o', '<i', 'a|b', '*',
            '~', '~/x', '#c', 'a#b', '%', 'a%b', '\\', 'a\\', '\\\\', 'a\\ b',
            "'", "''", '"', "a'b\"c", '-n', '-e', '--', '@x', '+x', '-x', '!x',
@@ -83,11 +87,9 @@ def admissible(ctx, s):
     if ctx in ('compile_opt', 'compile_opt_str', 'link_opt', 'link_opt_str',
                'lib_opt_str', 'global_opt', 'global_opt_str', 'global_link_opt',
                'env_cflags', 'env_cppflags', 'env_ldflags', 'env_ldlibs'):
-        # option lists are documented sets of flags: bfg9000 parses -I/-D/-l
-        # style flags *semantically* when they come from the environment, and
-        # an empty option is meaningless.  Keep raw strings that cannot be
-        # mistaken for a flag bfg9000 interprets.
-        if s == '':
+        # An empty word is a legitimate element of a LIST of options (['--param', '']); in
+        # the string forms it is kept out (see above: not every sh-splitter can carry it).
+        if s == '' and ctx not in ('compile_opt', 'link_opt', 'global_opt', 'global_link_opt'):
             return False
     return True
 
@@ -381,7 +383,7 @@ def run_script(backend, slots, script_slots=(), keep=False):
             except OSError:
                 pass
         log = os.path.join(root, 'log')
-        extra = proj.stub_toolchain_env(log)
+        extra = proj.stub_toolchain_env(log, backend)
         extra['VSTUB_ENVKEYS'] = 'VF_E'
         extra.update({'CP': 'vwrap-cp -f', 'SYMLINK': 'vwrap-ln -sf'})
         extra.update(genv)
